@@ -210,6 +210,10 @@ func newL2WorldOpt(r *core.Run, p *l2Profile, fixedBridge uint64, bases []string
 	adm := node.Addr("admin")
 	w.users = append(w.users, adm)
 	w.admin = adm.String()
+	if r.Chance(1, 6) {
+		// the admin is one of the key-holding users of the L2 (and can therefore sign deposit payloads)
+		w.admin = node.KeyAddr(w.keyed[0]).String()
+	}
 	for _, a := range w.users {
 		w.ustr = append(w.ustr, a.String())
 		amt := uint64(1_000_000 + r.Intn(1_000_000))
@@ -396,7 +400,13 @@ func (w *l2World) makeHook(spec *modelL2, to string, dep sdk.Coin) []byte {
 			lbl = k
 		}
 	}
-	class := []string{"good", "good", "good", "failmsg", "badsig", "staleseq", "hungry", "garbage", "unrouted", "wdhook", "wdhook+send", "wdhook+fail", "nested"}[w.r.Intn(13)]
+	class := []string{"good", "good", "good", "failmsg", "badsig", "staleseq", "hungry", "garbage", "unrouted", "wdhook", "wdhook+send", "wdhook+fail", "nested", "rolefail"}[w.r.Intn(14)]
+	if spec.Params.Admin == node.KeyAddr(w.keyed[0]).String() && w.r.Chance(1, 4) {
+		class = "rolefail"
+	}
+	if class == "rolefail" && spec.Params.Admin == node.KeyAddr(w.keyed[0]).String() && w.r.Chance(3, 4) {
+		lbl = w.keyed[0] // the admin holds a key on this L2: let the payload be the admin's
+	}
 	if class == "nested" && w.hookOuter == nil {
 		class = "good"
 	}
@@ -449,6 +459,20 @@ func (w *l2World) makeHook(spec *modelL2, to string, dep sdk.Coin) []byte {
 		mkSend(big.NewInt(int64(1+w.r.Intn(100))), "umin", rcpt)
 		// message k fails: more than the signer can ever hold
 		msgs = append(msgs, &banktypes.MsgSend{FromAddress: signer.String(), ToAddress: rcpt.String(), Amount: sdk.NewCoins(sdk.NewCoin("umin", math.NewIntFromBigInt(new(big.Int).Lsh(big.NewInt(1), 100))))})
+	case "rolefail":
+		// a payload that first hands the admin role and the executor list to somebody else (through the
+		// admin's MsgExecuteMessages; it only gets that far when the signer is the admin) and then fails:
+		// nothing of it may stay
+		np := spec.Params
+		np.Admin = w.outsider
+		np.BridgeExecutors = []string{w.outsider}
+		em, err := opchildtypes.NewMsgExecuteMessages(signer.String(), []sdk.Msg{&opchildtypes.MsgUpdateParams{Authority: w.m.Authority, Params: &np}})
+		if err != nil {
+			panic(err)
+		}
+		rcpt, _ := sdk.AccAddressFromBech32(w.pickUser())
+		msgs = append(msgs, em, &banktypes.MsgSend{FromAddress: signer.String(), ToAddress: rcpt.String(), Amount: sdk.NewCoins(sdk.NewCoin("umin", math.NewIntFromBigInt(new(big.Int).Lsh(big.NewInt(1), 100))))})
+		hs.Class = "failmsg"
 	case "hungry":
 		rcpt, _ := sdk.AccAddressFromBech32(w.pickUser())
 		for i := 0; i < 150; i++ {
@@ -725,7 +749,7 @@ func (w *l2World) genOp(spec *modelL2, bc blockCtx) ([]sdk.Msg, string, string) 
 				np.BridgeExecutors = append(np.BridgeExecutors, node.KeyAddr(w.keyed[w.r.Intn(len(w.keyed))]).String())
 			}
 		case 3:
-			np.Admin = []string{w.admin, w.ustr[0], w.outsider}[w.r.Intn(3)]
+			np.Admin = []string{w.admin, w.ustr[0], w.outsider, node.KeyAddr(w.keyed[0]).String()}[w.r.Intn(4)]
 		case 4:
 			np.HookMaxGas = []uint64{0, 60_000, 1_000_000, 3_000_000}[w.r.Intn(4)]
 			if np.HookMaxGas > 0 {
